@@ -101,7 +101,8 @@ def struct_layout(body, structs):
 
 
 class Leaf:
-    def __init__(self, pc, ret, store, entry, calls, trace, pc_raw=None):
+    def __init__(self, pc, ret, store, entry, calls, trace, pc_raw=None, offs=None):
+        self.offs = offs or {}
         self.pc_raw = pc_raw if pc_raw is not None else pc
         self.pc = pc          # list of conditions (domain objects)
         self.ret = ret
@@ -165,7 +166,7 @@ class Interp:
         st = st or State()
         leaves = []
         for (s, r) in self._run_fn(fn, args, st, 0):
-            leaves.append(Leaf(s.pc, r, s.store, dict(self.entry_syms), s.calls, s.trace, s.pc_raw))
+            leaves.append(Leaf(s.pc, r, s.store, dict(self.entry_syms), s.calls, s.trace, s.pc_raw, s.offs))
         return leaves
 
     # ---- function execution: generator of (state, retval)
